@@ -6,7 +6,8 @@ from sa.loader import load
 from sa.symeval import evaluate
 from sa import terms as T
 args = [a for a in sys.argv[1:] if not a.startswith('--')]
-P = load('/repo')
+import os
+P = load(os.environ.get('DUMP_REPO', '/repo'))
 bind = {}
 for a in args[1:]:
     k, v = a.split('=', 1)
